@@ -2,12 +2,13 @@ package main
 
 // orctrans: a translator from the SOURCE of rend's orchestrators (orcas/l1only.go, l1l2.go,
 // l1l2batch.go) to Gallina interaction programs (coq/orca/Types.v `prog`). Like gotrans it reads
-// /repo with go/parser on every run; coq/gen/OrcasLink.v proves each generated method equivalent
-// (coq/orca/ProgEq.v) to the hand-written model of coq/orca/Orcas.v the theorems are about. A
+// /repo with go/parser on every run; coq/gen/OrcasLink.v (and OrcasGetLink.v for Get/GetE) proves
+// each generated method equivalent (coq/orca/ProgEq.v, ProgEqX.v) to the hand-written model of
+// coq/orca/Orcas.v the theorems are about. A
 // change to one of the methods changes the generated program and breaks its link lemma.
 //
-// Translated: the methods Set, Add, Replace, Append, Prepend, Delete, Touch, Gat of L1OnlyOrca,
-// L1L2Orca and L1L2BatchOrca. Each becomes a function from the fields of its request that the
+// Translated: the methods Set, Add, Replace, Append, Prepend, Delete, Touch, Gat, Get, GetE of
+// L1OnlyOrca, L1L2Orca and L1L2BatchOrca. Each becomes a function from the fields of its request that the
 // model carries to `prog`. The translation is statement by statement and does no reasoning of
 // its own (no branch is decided here): Coq does that in the link proofs.
 //
@@ -29,6 +30,27 @@ package main
 //     err == common.ErrX, err != common.ErrX, x.Miss, !, &&, ||;
 //   - variables: `=` rebinds the Gallina variable of the same name (the rest is textually inside
 //     the binder), `:=` in an inner block that shadows gets a fresh name; blocks scope as in Go.
+//   - Get / GetE (a common.GetRequest is the model's `items : list gitem` plus NoopOpaque/NoopEnd:
+//     req.Keys / req.Opaques / req.Quiet are map gi_key|gi_opaque|gi_quiet items, and a GetRequest
+//     handed to a handler is HGet|HGetE (gitems Keys Opaques Quiet)):
+//       * `var x error | [][]byte | []uint32 | []bool`: let x := None | [] in ..;
+//         x = append(x, v): let x := x ++ [v] in ..; e = e2 / nil / common.ErrX for error variables;
+//         len(x) == 0 / != 0: is_empty x; `req = common.GetRequest{..}` replaces the tracked struct;
+//         a common.GetResponse / GetEResponse built by a composite literal and given to the
+//         responder is mkGR .. (a GetResponse has no Exptime: 0);
+//       * `rc, ec := l.lN.Get(x)` (or GetE; `=` on channel variables that have been drained) must
+//         be followed, after nothing but `var` declarations and dropped statements, by exactly
+//             for { select { case R, ok := <-rc: if !ok { rc = nil } else { BODY }
+//                            case E, ok := <-ec: if !ok { ec = nil } else { ONERR } }
+//                   if rc == nil && ec == nil { break } }
+//         (cases and conjuncts in either order) and becomes
+//             drain LN (HGet ..) s0 (fun R s continue_ => BODY) (fun E s continue_ => ONERR) (fun s => rest)
+//         where s is the tuple, in declaration order, of the variables declared outside the loop
+//         that BODY or ONERR assign, and falling off the end of BODY/ONERR is `continue_ s`.
+//         This reading of the loop rests on the handler contract stated in the source above each
+//         loop (responses in order, then at most one error, then both channels closed); see
+//         orca/OrcaSem.v [drain], [contract]. `return` inside BODY/ONERR, another loop inside, any
+//         other shape of `for`/`select`: not translated.
 // Anything else makes the method untranslatable: the generated file then carries a comment
 // `(* <method> could not be translated: <reason> *)` instead of the definition, so exactly that
 // method's link lemma stops compiling.
@@ -67,17 +89,28 @@ type otMethod struct {
 	Name    string
 	ReqType string
 	Fields  []otField
+	// for requests whose model parameters are not one per field (GetRequest): the binders as
+	// text, the names they bind, and for each field the Gallina term it stands for (otField.Coq)
+	Binders string
+	Params  []string
 }
 
 var (
 	otSetFields = []otField{{"Key", "k", "bytes"}, {"Data", "d", "bytes"}, {"Flags", "flags", "N"}, {"Exptime", "ttl", "N"}, {"Opaque", "opaque", "N"}, {"Quiet", "quiet", "bool"}}
 	otCatFields = []otField{{"Key", "k", "bytes"}, {"Data", "d", "bytes"}, {"Opaque", "opaque", "N"}, {"Quiet", "quiet", "bool"}}
 	otKeyTTL    = []otField{{"Key", "k", "bytes"}, {"Exptime", "ttl", "N"}, {"Opaque", "opaque", "N"}}
-	otMethods   = []otMethod{
-		{"Set", "SetRequest", otSetFields}, {"Add", "SetRequest", otSetFields}, {"Replace", "SetRequest", otSetFields},
-		{"Append", "SetRequest", otCatFields}, {"Prepend", "SetRequest", otCatFields},
-		{"Delete", "DeleteRequest", []otField{{"Key", "k", "bytes"}, {"Opaque", "opaque", "N"}}},
-		{"Touch", "TouchRequest", otKeyTTL}, {"Gat", "GATRequest", otKeyTTL},
+	// common.GetRequest is `items : list gitem` (key, opaque, quiet per key) + NoopOpaque + NoopEnd
+	otGetFields = []otField{{"Keys", "(map gi_key items)", "lbytes"}, {"Opaques", "(map gi_opaque items)", "lN"}, {"Quiet", "(map gi_quiet items)", "lbool"},
+		{"NoopOpaque", "noopOpaque", "N"}, {"NoopEnd", "noopEnd", "bool"}}
+	otGetBinders = "(items : list gitem) (noopOpaque : N) (noopEnd : bool)"
+	otGetParams  = []string{"items", "noopOpaque", "noopEnd"}
+	otMethods    = []otMethod{
+		{Name: "Set", ReqType: "SetRequest", Fields: otSetFields}, {Name: "Add", ReqType: "SetRequest", Fields: otSetFields},
+		{Name: "Replace", ReqType: "SetRequest", Fields: otSetFields},
+		{Name: "Append", ReqType: "SetRequest", Fields: otCatFields}, {Name: "Prepend", ReqType: "SetRequest", Fields: otCatFields},
+		{Name: "Delete", ReqType: "DeleteRequest", Fields: []otField{{"Key", "k", "bytes"}, {"Opaque", "opaque", "N"}}},
+		{Name: "Touch", ReqType: "TouchRequest", Fields: otKeyTTL}, {Name: "Gat", ReqType: "GATRequest", Fields: otKeyTTL},
+		{"Get", "GetRequest", otGetFields, otGetBinders, otGetParams}, {"GetE", "GetRequest", otGetFields, otGetBinders, otGetParams},
 	}
 )
 
@@ -87,17 +120,20 @@ type otHandlerCall struct {
 	Ctor    string
 	Fields  []string
 	Gat     bool
+	Chan    bool // returns a response channel and an error channel (Get, GetE)
 }
 
 var otHandler = map[string]otHandlerCall{
-	"Set":     {"SetRequest", "HSet MSet", []string{"Key", "Data", "Flags", "Exptime"}, false},
-	"Add":     {"SetRequest", "HSet MAdd", []string{"Key", "Data", "Flags", "Exptime"}, false},
-	"Replace": {"SetRequest", "HSet MReplace", []string{"Key", "Data", "Flags", "Exptime"}, false},
-	"Append":  {"SetRequest", "HCat false", []string{"Key", "Data"}, false},
-	"Prepend": {"SetRequest", "HCat true", []string{"Key", "Data"}, false},
-	"Delete":  {"DeleteRequest", "HDelete", []string{"Key"}, false},
-	"Touch":   {"TouchRequest", "HTouch", []string{"Key", "Exptime"}, false},
-	"GAT":     {"GATRequest", "HGat", []string{"Key", "Exptime", "Opaque"}, true},
+	"Set":     {"SetRequest", "HSet MSet", []string{"Key", "Data", "Flags", "Exptime"}, false, false},
+	"Add":     {"SetRequest", "HSet MAdd", []string{"Key", "Data", "Flags", "Exptime"}, false, false},
+	"Replace": {"SetRequest", "HSet MReplace", []string{"Key", "Data", "Flags", "Exptime"}, false, false},
+	"Append":  {"SetRequest", "HCat false", []string{"Key", "Data"}, false, false},
+	"Prepend": {"SetRequest", "HCat true", []string{"Key", "Data"}, false, false},
+	"Delete":  {"DeleteRequest", "HDelete", []string{"Key"}, false, false},
+	"Touch":   {"TouchRequest", "HTouch", []string{"Key", "Exptime"}, false, false},
+	"GAT":     {"GATRequest", "HGat", []string{"Key", "Exptime", "Opaque"}, true, false},
+	"Get":     {"GetRequest", "HGet", []string{"Keys", "Opaques", "Quiet"}, false, true},
+	"GetE":    {"GetRequest", "HGetE", []string{"Keys", "Opaques", "Quiet"}, false, true},
 }
 
 // protocol.Responder methods: rcall constructor and the kinds of its arguments
@@ -109,18 +145,22 @@ var otResponder = map[string]struct {
 	"Replace": {"PStored RtReplace", []string{"N", "bool"}}, "Append": {"PStored RtAppend", []string{"N", "bool"}},
 	"Prepend": {"PStored RtPrepend", []string{"N", "bool"}},
 	"Delete":  {"PDelete", []string{"N"}}, "Touch": {"PTouch", []string{"N"}}, "GAT": {"PGat", []string{"gres"}},
+	"Get": {"PGet", []string{"gres"}}, "GetE": {"PGetE", []string{"gres"}}, "GetEnd": {"PGetEnd", []string{"N", "bool"}},
 }
 
 // common.GetResponse fields as projections of orca/Types.v gres
 var otGresProj = map[string][2]string{
 	"Key": {"g_key", "bytes"}, "Data": {"g_data", "bytes"}, "Flags": {"g_flags", "N"}, "Opaque": {"g_opaque", "N"},
 	"Quiet": {"g_quiet", "bool"}, "Miss": {"g_miss", "bool"},
+	"Exptime": {"g_exp", "N"}, // common.GetEResponse only (the Go compiler has checked that)
 }
 
 // names the generated text uses: a local variable of the same name is renamed
 var otReserved = map[string]bool{"Ret": true, "Call": true, "Emit": true, "L1": true, "L2": true, "None": true, "Some": true,
 	"negb": true, "true": true, "false": true, "prog": true, "bytes": true, "N": true, "bool": true,
-	"call_err": true, "call_gat": true, "emit_err": true, "err_nil": true, "err_nonnil": true, "err_is": true}
+	"call_err": true, "call_gat": true, "emit_err": true, "err_nil": true, "err_nonnil": true, "err_is": true,
+	"drain": true, "continue_": true, "gitems": true, "is_empty": true, "mkGR": true, "map": true, "list": true, "option": true,
+	"gitem": true, "gi_key": true, "gi_opaque": true, "gi_quiet": true, "tt": true, "items": true}
 
 // ---- Gallina terms of type prog ----
 
@@ -138,6 +178,41 @@ type otIf struct {
 	c    string
 	a, b oterm
 }
+type otLet struct { // let name : typ := val in k
+	name, typ, val string
+	k              oterm
+}
+
+// the state of a drain loop: the Gallina names of the variables the loop assigns; filled in when
+// the loop's body has been translated (otCont nodes inside the body point to it)
+type otState struct{ names []string }
+
+func (s *otState) expr() string {
+	switch len(s.names) {
+	case 0:
+		return "tt"
+	case 1:
+		return s.names[0]
+	}
+	return "(" + strings.Join(s.names, ", ") + ")"
+}
+func (s *otState) pat() string {
+	switch len(s.names) {
+	case 0:
+		return "_"
+	case 1:
+		return s.names[0]
+	}
+	return "'(" + strings.Join(s.names, ", ") + ")"
+}
+
+type otCont struct{ st *otState } // falling off the end of the loop body: continue_ s
+type otDrain struct {
+	tier, q        string
+	st             *otState
+	res, geterr    string
+	body, onerr, k oterm
+}
 
 func otPrint(t oterm, ind string) string {
 	switch x := t.(type) {
@@ -152,6 +227,16 @@ func otPrint(t oterm, ind string) string {
 		return fmt.Sprintf("%s%s (fun %s =>\n%s)", ind, x.head, x.binders, otPrint(x.k, ind))
 	case otIf:
 		return fmt.Sprintf("%sif %s then\n%s\n%selse\n%s", ind, x.c, otPrint(x.a, ind+"  "), ind, otPrint(x.b, ind+"  "))
+	case otLet:
+		return fmt.Sprintf("%slet %s : %s := %s in\n%s", ind, x.name, x.typ, x.val, otPrint(x.k, ind))
+	case otCont:
+		return ind + "continue_ " + x.st.expr()
+	case otDrain:
+		return fmt.Sprintf("%sdrain %s (%s) %s\n%s  (fun %s %s continue_ =>\n%s)\n%s  (fun %s %s continue_ =>\n%s)\n%s  (fun %s =>\n%s)",
+			ind, x.tier, x.q, x.st.expr(),
+			ind, x.res, x.st.pat(), otPrint(x.body, ind+"    "),
+			ind, x.geterr, x.st.pat(), otPrint(x.onerr, ind+"    "),
+			ind, x.st.pat(), otPrint(x.k, ind))
 	}
 	return ind + "?"
 }
@@ -159,8 +244,11 @@ func otPrint(t oterm, ind string) string {
 // ---- environment ----
 
 type otVar struct {
-	kind   string            // "err", "gres", "struct", "dropped"
-	coq    string            // err, gres: the Gallina variable
+	kind   string            // "err", "gres", "struct", "dropped", "lbytes", "lN", "lbool" (slices), "chan", "ok"
+	coq    string            // err, gres, slices: the Gallina variable
+	seq    int               // order of declaration
+	role   string            // chan: "res" or "err"
+	pend   *otPending        // chan: the handler call whose channel this is, nil once drained
 	styp   string            // struct: its type in package common
 	fields map[string]string // struct: field -> Gallina term
 	param  bool              // the method's request: a field that is not in `fields` is not in the model
@@ -168,7 +256,58 @@ type otVar struct {
 	stale  string            // struct: why it can no longer be used
 }
 
+// a handler Get/GetE call whose two channels have not been drained yet
+type otPending struct {
+	tier, q string
+	pos     token.Pos
+}
+
+// a drain loop being translated: the number of scopes outside it and the outer variables its
+// body assigns (by Gallina name)
+type otLoop struct {
+	depth    int
+	assigned map[string]*otVar
+}
+
 type otEnv struct{ scopes []map[string]*otVar }
+
+func (e *otEnv) lookupIdx(n string) (*otVar, int) {
+	for i := len(e.scopes) - 1; i >= 0; i-- {
+		if v, ok := e.scopes[i][n]; ok {
+			return v, i
+		}
+	}
+	return nil, -1
+}
+
+// pending: a handler Get call whose channels are still to be drained
+func (e *otEnv) pending() *otPending {
+	for _, s := range e.scopes {
+		for _, v := range s {
+			if v.kind == "chan" && v.pend != nil {
+				return v.pend
+			}
+		}
+	}
+	return nil
+}
+
+func otIsList(kind string) bool { return kind == "lbytes" || kind == "lN" || kind == "lbool" }
+
+// otCoqType: the Gallina type of a variable of the given kind
+func otCoqType(kind string) string {
+	switch kind {
+	case "err":
+		return "option N"
+	case "lbytes":
+		return "list bytes"
+	case "lN":
+		return "list N"
+	case "lbool":
+		return "list bool"
+	}
+	return kind
+}
 
 func (e *otEnv) clone() *otEnv {
 	n := &otEnv{}
@@ -239,7 +378,11 @@ type otCtx struct {
 	structs    map[string]map[string]string // common struct type -> field -> kind (bytes, N, bool)
 	errNames   map[string]bool              // common.Err* the model numbers
 	paramNames map[string]bool
+	seq        int     // declaration counter
+	loop       *otLoop // the drain loop whose body is being translated
 }
+
+func (c *otCtx) nextSeq() int { c.seq++; return c.seq }
 
 func (c *otCtx) fail(pos token.Pos, format string, a ...interface{}) {
 	p := c.fs.Position(pos)
@@ -331,9 +474,32 @@ func (c *otCtx) value(env *otEnv, e ast.Expr, deps map[string]bool) (term, kind 
 				return "[]", "bytes"
 			}
 		}
-		if v := env.lookup(x.Name); v != nil && v.kind == "gres" {
+		if v := env.lookup(x.Name); v != nil && (v.kind == "gres" || otIsList(v.kind)) {
 			deps[v.coq] = true
-			return v.coq, "gres"
+			return v.coq, v.kind
+		}
+		// a common.GetResponse / GetEResponse built by a composite literal, used as a value
+		if v := env.lookup(x.Name); v != nil && v.kind == "struct" && (v.styp == "GetResponse" || v.styp == "GetEResponse") {
+			var parts []string
+			for _, f := range []string{"Key", "Data", "Flags", "Exptime", "Opaque", "Quiet", "Miss"} {
+				if f == "Exptime" && v.styp == "GetResponse" {
+					parts = append(parts, "0") // the type has no such field
+					continue
+				}
+				t, _ := c.value(env, &ast.SelectorExpr{X: x, Sel: &ast.Ident{Name: f, NamePos: x.Pos()}}, deps)
+				parts = append(parts, t)
+			}
+			return "(mkGR " + strings.Join(parts, " ") + ")", "gres"
+		}
+	case *ast.CallExpr:
+		// append(xs, v)
+		if id, ok := x.Fun.(*ast.Ident); ok && id.Name == "append" && env.lookup("append") == nil && len(x.Args) == 2 && !x.Ellipsis.IsValid() {
+			ta, ka := c.value(env, x.Args[0], deps)
+			tb, kb := c.value(env, x.Args[1], deps)
+			if !otIsList(ka) || ka != "l"+kb {
+				c.fail(x.Pos(), "append of a %s to a %s", kb, ka)
+			}
+			return fmt.Sprintf("(%s ++ [%s])", ta, tb), ka
 		}
 	case *ast.SelectorExpr:
 		id, ok := x.X.(*ast.Ident)
@@ -379,7 +545,7 @@ func (c *otCtx) value(env *otEnv, e ast.Expr, deps map[string]bool) (term, kind 
 
 func otZero(kind string) string {
 	switch kind {
-	case "bytes":
+	case "bytes", "lbytes", "lN", "lbool":
 		return "[]"
 	case "bool":
 		return "false"
@@ -404,6 +570,25 @@ func (c *otCtx) cond(env *otEnv, e ast.Expr) string {
 			return "(" + c.cond(env, x.X) + ") || (" + c.cond(env, x.Y) + ")"
 		case token.EQL, token.NEQ:
 			l, r := x.X, x.Y
+			// len(xs) == 0, len(xs) != 0 (either way round)
+			for _, pr := range [][2]ast.Expr{{l, r}, {r, l}} {
+				call, isCall := pr[0].(*ast.CallExpr)
+				lit, isLit := pr[1].(*ast.BasicLit)
+				if !isCall || !isLit || lit.Kind != token.INT || lit.Value != "0" || len(call.Args) != 1 {
+					continue
+				}
+				if id, ok := call.Fun.(*ast.Ident); !ok || id.Name != "len" || env.lookup("len") != nil {
+					continue
+				}
+				t, k := c.value(env, call.Args[0], map[string]bool{})
+				if !otIsList(k) && k != "bytes" {
+					c.fail(x.Pos(), "len of something that is not a slice")
+				}
+				if x.Op == token.EQL {
+					return "is_empty " + t
+				}
+				return "negb (is_empty " + t + ")"
+			}
 			if _, ok := c.errVar(env, l); !ok {
 				l, r = r, l
 			}
@@ -482,6 +667,9 @@ func (c *otCtx) hreq(env *otEnv, pos token.Pos, field, method string, args []ast
 		t, _ := c.value(env, &ast.SelectorExpr{X: id, Sel: &ast.Ident{Name: f, NamePos: pos}}, map[string]bool{})
 		parts = append(parts, t)
 	}
+	if h.Chan { // the three parallel slices of a GetRequest are the model's list of items
+		return tier, fmt.Sprintf("%s (gitems %s)", h.Ctor, strings.Join(parts[1:], " ")), false
+	}
 	return tier, strings.Join(parts, " "), h.Gat
 }
 
@@ -554,16 +742,292 @@ func (c *otCtx) assignTarget(env *otEnv, lhs ast.Expr, define bool, kind string)
 			return v.coq
 		}
 		n := c.fresh(env, id.Name)
-		env.top()[id.Name] = &otVar{kind: kind, coq: n}
+		env.top()[id.Name] = &otVar{kind: kind, coq: n, seq: c.nextSeq()}
 		env.bound(n)
 		return n
 	}
-	v := env.lookup(id.Name)
+	v, idx := env.lookupIdx(id.Name)
 	if v == nil || v.kind != kind {
 		c.fail(lhs.Pos(), "assignment to %s, which is not a variable of the expected type", id.Name)
 	}
+	if c.loop != nil && idx < c.loop.depth {
+		// a variable declared outside the drain loop is assigned inside: it is part of the loop's state
+		if kind != "err" && !otIsList(kind) {
+			c.fail(lhs.Pos(), "%s is declared outside the loop and assigned inside it: only error and slice variables can be loop state", id.Name)
+		}
+		c.loop.assigned[v.coq] = v
+	}
 	env.bound(v.coq)
 	return v.coq
+}
+
+// simpleValue: right-hand sides that are plain values of kind err or slice: another error
+// variable, nil, common.ErrX, append(xs, v), a slice variable
+func (c *otCtx) simpleValue(env *otEnv, lhs, rhs ast.Expr, define bool) (term, kind string, ok bool) {
+	if ev, isErr := c.errVar(env, rhs); isErr {
+		return ev, "err", true
+	}
+	if k, isConst := c.errConst(env, rhs); isConst {
+		return "(Some " + k + ")", "err", true
+	}
+	if id, isId := rhs.(*ast.Ident); isId && id.Name == "nil" && env.lookup("nil") == nil && !define {
+		if l, isId := lhs.(*ast.Ident); isId {
+			if v := env.lookup(l.Name); v != nil && v.kind == "err" {
+				return "None", "err", true
+			}
+			if v := env.lookup(l.Name); v != nil && otIsList(v.kind) {
+				return "[]", v.kind, true
+			}
+		}
+		return "", "", false
+	}
+	switch x := rhs.(type) {
+	case *ast.CallExpr:
+		if id, isId := x.Fun.(*ast.Ident); isId && id.Name == "append" && env.lookup("append") == nil {
+			t, k := c.value(env, rhs, map[string]bool{})
+			return t, k, true
+		}
+	case *ast.Ident:
+		if v := env.lookup(x.Name); v != nil && otIsList(v.kind) {
+			return v.coq, v.kind, true
+		}
+	}
+	return "", "", false
+}
+
+// chanTarget binds one of the two channel variables of `rc, ec := l.lN.Get(x)`
+func (c *otCtx) chanTarget(env *otEnv, lhs ast.Expr, define bool, role string, p *otPending) {
+	id, ok := lhs.(*ast.Ident)
+	if !ok || id.Name == "_" {
+		c.fail(lhs.Pos(), "the channels of a handler Get must be assigned to variables")
+	}
+	var v *otVar
+	if define {
+		v = env.top()[id.Name] // declared in this very scope: `:=` assigns
+	} else if v = env.lookup(id.Name); v == nil {
+		c.fail(lhs.Pos(), "assignment to %s, which is not declared", id.Name)
+	}
+	if v == nil {
+		env.top()[id.Name] = &otVar{kind: "chan", role: role, pend: p, seq: c.nextSeq()}
+		return
+	}
+	if v.kind != "chan" || v.role != role {
+		c.fail(lhs.Pos(), "%s is not a %s channel variable", id.Name, role)
+	}
+	if v.pend != nil {
+		c.fail(lhs.Pos(), "%s is assigned again before the loop that drains it", id.Name)
+	}
+	v.pend = p
+}
+
+// otVarDeclKind: the kind and initial value of `var x T`
+func otVarDeclKind(t ast.Expr) (kind, zero string) {
+	switch x := t.(type) {
+	case *ast.Ident:
+		if x.Name == "error" {
+			return "err", "None"
+		}
+	case *ast.ArrayType:
+		if x.Len != nil {
+			break
+		}
+		switch el := x.Elt.(type) {
+		case *ast.Ident:
+			switch el.Name {
+			case "uint32":
+				return "lN", "[]"
+			case "bool":
+				return "lbool", "[]"
+			}
+		case *ast.ArrayType:
+			if id, ok := el.Elt.(*ast.Ident); ok && el.Len == nil && id.Name == "byte" {
+				return "lbytes", "[]"
+			}
+		}
+	}
+	return "", ""
+}
+
+func isNilIdent(env *otEnv, e ast.Expr) bool {
+	id, ok := e.(*ast.Ident)
+	return ok && id.Name == "nil" && env.lookup("nil") == nil
+}
+
+// drainClause matches one case of the select:  case V, OK := <-CH: if !OK { CH = nil } else { BODY }
+func (c *otCtx) drainClause(env *otEnv, st ast.Stmt) (val, okv, ch string, body *ast.BlockStmt) {
+	bad := func(pos token.Pos, what string) {
+		c.fail(pos, "select case is not of the form `case v, ok := <-ch: if !ok { ch = nil } else { ... }` (%s)", what)
+	}
+	cc, ok := st.(*ast.CommClause)
+	if !ok || cc.Comm == nil {
+		bad(st.Pos(), "default case")
+	}
+	as, ok := cc.Comm.(*ast.AssignStmt)
+	if !ok || as.Tok != token.DEFINE || len(as.Lhs) != 2 || len(as.Rhs) != 1 {
+		bad(cc.Pos(), "not a two-value receive")
+	}
+	v, ok1 := as.Lhs[0].(*ast.Ident)
+	o, ok2 := as.Lhs[1].(*ast.Ident)
+	rcv, ok3 := as.Rhs[0].(*ast.UnaryExpr)
+	if !ok1 || !ok2 || !ok3 || rcv.Op != token.ARROW || o.Name == "_" {
+		bad(cc.Pos(), "not a two-value receive")
+	}
+	chid, ok := rcv.X.(*ast.Ident)
+	if !ok {
+		bad(cc.Pos(), "receive from something that is not a variable")
+	}
+	if len(cc.Body) != 1 {
+		bad(cc.Pos(), "the case body is not a single if statement")
+	}
+	ifs, ok := cc.Body[0].(*ast.IfStmt)
+	if !ok || ifs.Init != nil {
+		bad(cc.Pos(), "the case body is not a single if statement")
+	}
+	neg, ok := ifs.Cond.(*ast.UnaryExpr)
+	if !ok || neg.Op != token.NOT {
+		bad(ifs.Pos(), "condition is not !ok")
+	}
+	if cid, ok := neg.X.(*ast.Ident); !ok || cid.Name != o.Name {
+		bad(ifs.Pos(), "condition is not !ok")
+	}
+	if len(ifs.Body.List) != 1 {
+		bad(ifs.Pos(), "the closed branch is not `ch = nil`")
+	}
+	cl, ok := ifs.Body.List[0].(*ast.AssignStmt)
+	if !ok || cl.Tok != token.ASSIGN || len(cl.Lhs) != 1 || len(cl.Rhs) != 1 || !isNilIdent(env, cl.Rhs[0]) {
+		bad(ifs.Pos(), "the closed branch is not `ch = nil`")
+	}
+	if lid, ok := cl.Lhs[0].(*ast.Ident); !ok || lid.Name != chid.Name {
+		bad(ifs.Pos(), "the closed branch is not `ch = nil`")
+	}
+	eb, ok := ifs.Else.(*ast.BlockStmt)
+	if !ok {
+		bad(ifs.Pos(), "no else block")
+	}
+	return v.Name, o.Name, chid.Name, eb
+}
+
+// drainLoop translates the loop that drains the two channels of a handler Get (see the header)
+func (c *otCtx) drainLoop(x *ast.ForStmt, env *otEnv, next func(*otEnv) oterm) oterm {
+	if c.loop != nil {
+		c.fail(x.Pos(), "a loop inside a drain loop")
+	}
+	if x.Init != nil || x.Cond != nil || x.Post != nil || len(x.Body.List) != 2 {
+		c.fail(x.Pos(), "for statement is not `for { select {..}; if rc == nil && ec == nil { break } }`")
+	}
+	sel, ok := x.Body.List[0].(*ast.SelectStmt)
+	if !ok || len(sel.Body.List) != 2 {
+		c.fail(x.Pos(), "the loop does not start with a select of two cases")
+	}
+	type clause struct {
+		val, okv, ch string
+		body         *ast.BlockStmt
+	}
+	var resC, errC *clause
+	var pend *otPending
+	for _, st := range sel.Body.List {
+		cl := &clause{}
+		cl.val, cl.okv, cl.ch, cl.body = c.drainClause(env, st)
+		v := env.lookup(cl.ch)
+		if v == nil || v.kind != "chan" || v.pend == nil {
+			c.fail(st.Pos(), "%s is not a channel of a handler Get call that is still to be drained", cl.ch)
+		}
+		if pend != nil && pend != v.pend {
+			c.fail(st.Pos(), "the two channels come from different handler calls")
+		}
+		pend = v.pend
+		switch {
+		case v.role == "res" && resC == nil:
+			resC = cl
+		case v.role == "err" && errC == nil:
+			errC = cl
+		default:
+			c.fail(st.Pos(), "two cases receive from the same channel")
+		}
+	}
+	// if rc == nil && ec == nil { break }
+	exit, ok := x.Body.List[1].(*ast.IfStmt)
+	badExit := func() {
+		c.fail(x.Body.List[1].Pos(), "the loop does not end with `if rc == nil && ec == nil { break }`")
+	}
+	if !ok || exit.Init != nil || exit.Else != nil || len(exit.Body.List) != 1 {
+		badExit()
+	}
+	if br, ok := exit.Body.List[0].(*ast.BranchStmt); !ok || br.Tok != token.BREAK || br.Label != nil {
+		badExit()
+	}
+	and, ok := exit.Cond.(*ast.BinaryExpr)
+	if !ok || and.Op != token.LAND {
+		badExit()
+	}
+	seen := map[string]bool{}
+	for _, e := range []ast.Expr{and.X, and.Y} {
+		cmp, ok := e.(*ast.BinaryExpr)
+		if !ok || cmp.Op != token.EQL || !isNilIdent(env, cmp.Y) {
+			badExit()
+		}
+		id, ok := cmp.X.(*ast.Ident)
+		if !ok {
+			badExit()
+		}
+		seen[id.Name] = true
+	}
+	if !seen[resC.ch] || !seen[errC.ch] || resC.ch == errC.ch {
+		badExit()
+	}
+
+	st := &otState{}
+	tail := func(*otEnv) oterm { return otCont{st} }
+	bind := func(cl *clause, kind string) (*otEnv, string) {
+		e := env.clone()
+		e.lookup(resC.ch).pend = nil // inside the loop the call is being consumed
+		e.lookup(errC.ch).pend = nil
+		e.push()
+		e.top()[cl.okv] = &otVar{kind: "ok"}
+		name := "_"
+		if cl.val != "_" {
+			name = c.fresh(e, cl.val)
+			e.top()[cl.val] = &otVar{kind: kind, coq: name, seq: c.nextSeq()}
+		}
+		return e.push(), name
+	}
+	var lp *otLoop
+	var body, onerr oterm
+	var resName, errName string
+	translate := func() {
+		lp = &otLoop{depth: len(env.scopes), assigned: map[string]*otVar{}}
+		c.loop = lp
+		var benv, eenv *otEnv
+		benv, resName = bind(resC, "gres")
+		body = c.block(resC.body.List, benv, tail)
+		eenv, errName = bind(errC, "err")
+		onerr = c.block(errC.body.List, eenv, tail)
+		c.loop = nil
+	}
+	// first pass: which outer variables does the loop assign? They are bound anew by the loop
+	// (in its body and after it), so a tracked struct built from one of them can no longer be used
+	translate()
+	var vars []*otVar
+	for _, v := range lp.assigned {
+		vars = append(vars, v)
+	}
+	for i := range vars {
+		for j := i + 1; j < len(vars); j++ {
+			if vars[j].seq < vars[i].seq {
+				vars[i], vars[j] = vars[j], vars[i]
+			}
+		}
+	}
+	for _, v := range vars {
+		st.names = append(st.names, v.coq)
+		env.bound(v.coq)
+	}
+	// second pass: the translation proper
+	translate()
+	// after the loop both channel variables are nil
+	env.lookup(resC.ch).pend = nil
+	env.lookup(errC.ch).pend = nil
+	return otDrain{tier: pend.tier, q: pend.q, st: st, res: resName, geterr: errName, body: body, onerr: onerr, k: next(env)}
 }
 
 // block translates stmts; tail gives what follows when they fall through (nil: nothing may)
@@ -579,17 +1043,67 @@ func (c *otCtx) block(stmts []ast.Stmt, env *otEnv, tail func(*otEnv) oterm) ote
 	if c.noop(env, s) {
 		return next(env)
 	}
+	if p := env.pending(); p != nil {
+		// between a handler Get and the loop that drains its channels: declarations only
+		switch s.(type) {
+		case *ast.DeclStmt, *ast.ForStmt:
+		default:
+			c.fail(s.Pos(), "statement between the handler Get call of line %d and the loop that drains its channels", c.fs.Position(p.pos).Line)
+		}
+	}
 	switch x := s.(type) {
+	case *ast.DeclStmt:
+		gd, ok := x.Decl.(*ast.GenDecl)
+		if !ok || gd.Tok != token.VAR {
+			c.fail(x.Pos(), "declaration not supported")
+		}
+		type decl struct{ name, kind, zero string }
+		var ds []decl
+		for _, sp := range gd.Specs {
+			vs := sp.(*ast.ValueSpec)
+			if len(vs.Values) != 0 || vs.Type == nil {
+				c.fail(vs.Pos(), "var declaration with an initial value")
+			}
+			kind, zero := otVarDeclKind(vs.Type)
+			if kind == "" {
+				c.fail(vs.Pos(), "var declaration of an unsupported type")
+			}
+			for _, n := range vs.Names {
+				if n.Name == "_" {
+					continue
+				}
+				if _, dup := env.top()[n.Name]; dup {
+					c.fail(n.Pos(), "%s is already declared in this block", n.Name)
+				}
+				coq := c.fresh(env, n.Name)
+				env.top()[n.Name] = &otVar{kind: kind, coq: coq, seq: c.nextSeq()}
+				env.bound(coq)
+				ds = append(ds, decl{coq, kind, zero})
+			}
+		}
+		t := next(env)
+		for i := len(ds) - 1; i >= 0; i-- {
+			t = otLet{ds[i].name, otCoqType(ds[i].kind), ds[i].zero, t}
+		}
+		return t
+	case *ast.ForStmt:
+		return c.drainLoop(x, env, next)
 	case *ast.ExprStmt:
 		if f, m, args, ok := c.recvCall(x.X); ok {
 			return otEmit{c.rcall(env, x.Pos(), f, m, args), next(env)}
 		}
 		c.fail(x.Pos(), "call statement not supported")
 	case *ast.ReturnStmt:
+		if c.loop != nil {
+			c.fail(x.Pos(), "return inside a drain loop")
+		}
 		if len(x.Results) != 1 {
 			c.fail(x.Pos(), "return of %d values", len(x.Results))
 		}
 		r := x.Results[0]
+		if p := env.pending(); p != nil {
+			c.fail(x.Pos(), "return while the channels of the handler call of line %d are still to be drained", c.fs.Position(p.pos).Line)
+		}
 		if ev, ok := c.errVar(env, r); ok {
 			return otRet{ev}
 		}
@@ -661,19 +1175,32 @@ func (c *otCtx) block(stmts []ast.Stmt, env *otEnv, tail func(*otEnv) oterm) ote
 		rhs := x.Rhs[0]
 		// x := common.T{...}
 		if cl, ok := rhs.(*ast.CompositeLit); ok {
-			if !define || len(x.Lhs) != 1 {
-				c.fail(x.Pos(), "a composite literal may only define a new variable")
+			if len(x.Lhs) != 1 {
+				c.fail(x.Pos(), "a composite literal assigned to several variables")
 			}
 			id, ok := x.Lhs[0].(*ast.Ident)
 			if !ok || id.Name == "_" {
 				c.fail(x.Pos(), "assignment to something that is not a variable")
 			}
-			if _, dup := env.top()[id.Name]; dup {
-				c.fail(x.Pos(), "%s is already declared in this block", id.Name)
-			}
 			pkg, tn, ok := c.pkgSel(env, cl.Type)
 			if !ok || pkg != "common" || c.structs[tn] == nil {
 				c.fail(x.Pos(), "composite literal of an unknown type")
+			}
+			target := env.top()
+			if define {
+				if _, dup := env.top()[id.Name]; dup {
+					c.fail(x.Pos(), "%s is already declared in this block", id.Name)
+				}
+			} else {
+				// x = common.T{...}: the tracked struct is replaced (the literal is evaluated first)
+				old, idx := env.lookupIdx(id.Name)
+				if old == nil || old.kind != "struct" || old.styp != tn {
+					c.fail(x.Pos(), "a composite literal is assigned to %s, which is not a struct variable of that type", id.Name)
+				}
+				if c.loop != nil && idx < c.loop.depth {
+					c.fail(x.Pos(), "%s is declared outside the loop and assigned inside it: only error and slice variables can be loop state", id.Name)
+				}
+				target = env.scopes[idx]
 			}
 			v := &otVar{kind: "struct", styp: tn, fields: map[string]string{}, deps: map[string]bool{}}
 			for _, el := range cl.Elts {
@@ -698,12 +1225,23 @@ func (c *otCtx) block(stmts []ast.Stmt, env *otEnv, tail func(*otEnv) oterm) ote
 				}
 				v.fields[key.Name] = t
 			}
-			env.top()[id.Name] = v
+			v.seq = c.nextSeq()
+			target[id.Name] = v
 			return next(env)
+		}
+		// e = e2 | nil | common.ErrX,  xs = append(xs, v)
+		if len(x.Lhs) == 1 {
+			if t, k, ok := c.simpleValue(env, x.Lhs[0], rhs, define); ok {
+				b := c.assignTarget(env, x.Lhs[0], define, k)
+				if b == "_" {
+					return next(env)
+				}
+				return otLet{b, otCoqType(k), t, next(env)}
+			}
 		}
 		f, m, args, ok := c.recvCall(rhs)
 		if !ok {
-			c.fail(x.Pos(), "right-hand side is neither a handler call, a responder call nor a composite literal")
+			c.fail(x.Pos(), "right-hand side is neither a handler call, a responder call, a composite literal, an error nor an append")
 		}
 		if c.recvFields[f] == "protocol.Responder" {
 			if len(x.Lhs) != 1 {
@@ -714,6 +1252,22 @@ func (c *otCtx) block(stmts []ast.Stmt, env *otEnv, tail func(*otEnv) oterm) ote
 			return otBind{"emit_err (" + call + ")", b, next(env)}
 		}
 		tier, q, gat := c.hreq(env, x.Pos(), f, m, args)
+		if h := otHandler[m]; h.Chan {
+			// rc, ec := l.lN.Get(x): the call is made here; its result is consumed by the drain loop
+			if len(x.Lhs) != 2 {
+				c.fail(x.Pos(), "%s returns a response channel and an error channel", m)
+			}
+			if c.loop != nil {
+				c.fail(x.Pos(), "a handler %s inside a drain loop", m)
+			}
+			if p := env.pending(); p != nil {
+				c.fail(x.Pos(), "a handler %s while the channels of the call of line %d are still to be drained", m, c.fs.Position(p.pos).Line)
+			}
+			p := &otPending{tier: tier, q: q, pos: x.Pos()}
+			c.chanTarget(env, x.Lhs[0], define, "res", p)
+			c.chanTarget(env, x.Lhs[1], define, "err", p)
+			return next(env)
+		}
 		if gat {
 			if len(x.Lhs) != 2 {
 				c.fail(x.Pos(), "GAT returns a response and an error")
@@ -766,6 +1320,8 @@ func otParseStructs(repo string) (map[string]map[string]string, error) {
 				case *ast.ArrayType:
 					if id, ok := t.Elt.(*ast.Ident); ok && t.Len == nil && id.Name == "byte" {
 						k = "bytes"
+					} else if lk, _ := otVarDeclKind(t); lk != "" && lk != "err" {
+						k = lk // [][]byte, []uint32, []bool
 					}
 				}
 				if k == "" {
@@ -847,7 +1403,20 @@ func otTranslate(fs *token.FileSet, af *ast.File, o otOrca, m otMethod, structs 
 	}
 	req := &otVar{kind: "struct", styp: m.ReqType, fields: map[string]string{}, deps: map[string]bool{}, param: true}
 	var binders []string
-	for i := 0; i < len(m.Fields); {
+	if m.Binders != "" {
+		// the model's parameters are not one per field: each field stands for a term over them
+		for _, f := range m.Fields {
+			if structs[m.ReqType][f.Go] != f.Typ {
+				return "", fmt.Errorf("common.%s has no field %s of type %s", m.ReqType, f.Go, f.Typ)
+			}
+			req.fields[f.Go] = f.Coq
+		}
+		for _, n := range m.Params {
+			c.paramNames[n] = true
+		}
+		binders = []string{m.Binders}
+	}
+	for i := 0; m.Binders == "" && i < len(m.Fields); {
 		j := i
 		var names []string
 		for ; j < len(m.Fields) && m.Fields[j].Typ == m.Fields[i].Typ; j++ {
@@ -883,7 +1452,8 @@ func orctrans(e *env) {
 	var sb strings.Builder
 	sb.WriteString("(* GENERATED by harness orctrans from the SOURCE of /repo/orcas — do not edit.\n" +
 		"   One interaction program per orchestrator method (rules: harness/cmd/rendharness/orctrans.go,\n" +
-		"   helpers: orca/OrcaSem.v); gen/OrcasLink.v proves each equivalent to the model of orca/Orcas.v. *)\n")
+		"   helpers: orca/OrcaSem.v); gen/OrcasLink.v and gen/OrcasGetLink.v (Get, GetE) prove each equivalent to\n" +
+		"   the model of orca/Orcas.v. *)\n")
 	sb.WriteString("From Rend Require Import base.Bytes gen.Consts_gen spec.MapSpec orca.Types orca.OrcaSem.\nOpen Scope N_scope.\nOpen Scope bool_scope.\n\n")
 	structs, serr := otParseStructs(repo)
 	done, total := 0, 0
